@@ -149,6 +149,11 @@ class SourceMapping:
         self.line = line_number
         self.column = column
 
+    def __eq__(self, other: object) -> bool:
+        if not isinstance(other, SourceMapping) or isinstance(other, MacroSourceMapping):
+            return False
+        return self.line == other.line and self.column == other.column
+
     def serialize(self) -> list[Any]:
         return [self.line, self.column]
 
@@ -192,6 +197,21 @@ class MacroSourceMapping(SourceMapping):
         # The mapping of parameter values for the current macro context, only for informational
         # purposes. Contains the string representation or integer value
         self.parameter_mapping = parameter_mapping
+
+    def __eq__(self, other: object) -> bool:
+        if not isinstance(other, MacroSourceMapping):
+            return False
+        # The call site is a tuple when built and a list when loaded from JSON.
+        return (
+            self.line == other.line
+            and self.column == other.column
+            and self.relpath_included_file == other.relpath_included_file
+            and self.macro_name == other.macro_name
+            and (None if self.called_in is None else tuple(self.called_in))
+            == (None if other.called_in is None else tuple(other.called_in))
+            and self.return_addr == other.return_addr
+            and dict(self.parameter_mapping) == dict(other.parameter_mapping)
+        )
 
     def serialize(self) -> list[Any]:
         return [
